@@ -3,10 +3,12 @@
 //! Sender side: the REAL client `SendBuffer` (`next_request_id` + `write`, then drained through
 //! `encode_next_chunk` / `read_into_async` as `TcpTransport::poll_inner` does) and the REAL server
 //! `MessageWriter` (`write` + `bytes_to_write`); the sequence headers are read back from the bytes
-//! that would go on the wire.  Receiver side: the REAL `Chunker::validate_chunks` under the two
-//! lines of glue both transports wrap around it (`last = validate_chunks(last + 1, ..)?`), fed
-//! with the emitted chunks in order, reordered, duplicated, replayed, spliced across messages,
-//! and with forged chunks carrying arbitrary sequence number / request id / channel id.
+//! that would go on the wire.  Receiver side: the REAL sequence check of both transports,
+//! `TransportState::turn_received_chunks_into_message` (client, hook `VerifTransport`) and
+//! `TcpTransport::turn_received_chunks_into_message` (server, `Server::new_transport` + hook), i.e.
+//! `Chunker::validate_chunks` under each transport's `last_received_sequence_number`, fed with the
+//! emitted chunks in order, reordered, duplicated, replayed, spliced across messages, and with
+//! forged chunks carrying arbitrary sequence number / request id / channel id.
 #[path = "../util.rs"]
 mod util;
 use util::*;
